@@ -128,6 +128,10 @@ func EvalFilter(n *gen.FNode, ts *gen.TypeSpec, vals map[string]any) bool {
 		return false
 	}
 
+	if n.Group {
+		return false
+	}
+
 	if _, ok := ts.Attr(n.Field); ok {
 		if n.Op == "in" {
 			s := vals[n.Field].(string)
